@@ -185,6 +185,12 @@ func genArgs(c chooser, w *world, f *ast.FieldDefinition) string {
 		if !required && c.Int(2, "optarg") == 1 {
 			continue
 		}
+		if a.Name == "depth" && a.Type.Name() == "Int" {
+			// Storage.linkedStorages(depth): the mock answers depth items per parent and
+			// the field nests, so large values multiply into millions of objects
+			parts = append(parts, a.Name+": "+[]string{"1", "2", "3", "0"}[c.Int(4, "depth")])
+			continue
+		}
 		parts = append(parts, a.Name+": "+genValue(c, w, a.Type, 0))
 	}
 	if len(parts) == 0 {
